@@ -24,7 +24,7 @@ RULE = ("Streams of 1..8 well-formed frames of every kind (both generations) are
         "(stream, cut set, gap policy).")
 ASSUMPTIONS = ["SimTransport.peer_data == one TCP segment arriving (data_received call)",
                "baseline cross-checked against refproto's frame count/order"]
-REQUIRED_OBS = ["segmentations_ok", "cuts_inside_header", "cuts_inside_crc", "byte_at_a_time",
+REQUIRED_OBS = ["sends_between_segments", "segmentations_ok", "cuts_inside_header", "cuts_inside_crc", "byte_at_a_time",
                 "slow_subscriber_runs"]
 BUDGET = {"quick": 100, "thorough": 1500}
 
@@ -57,8 +57,14 @@ def streams(gen):
 _BASE = {}
 
 
-def deliver(gen, stream, cuts, gap, debug=False, delays=None):
-    """Deliver `stream` cut at `cuts`; returns (deliveries, closed, errors, status)."""
+def deliver(gen, stream, cuts, gap, debug=False, delays=None, send_in_gap=False):
+    """Deliver `stream` cut at `cuts`; returns (deliveries, closed, errors, status).
+    send_in_gap: the application submits a command after every segment (sending and receiving
+    go on at the same time on one connection)."""
+    import pyairtouch.comms.socket as psock
+    from .. import sockscript as S
+    sent = []
+
     async def main(loop, net, log):
         w = SockWorld(gen, loop, net, log)
         if delays:
@@ -71,6 +77,10 @@ def deliver(gen, stream, cuts, gap, debug=False, delays=None):
             if not seg:
                 continue
             c.transport.peer_data(seg)
+            if send_in_gap:
+                msg, typ, data = S.make_message(gen, S.KINDS[i % 3], 7000 + i)
+                sent.append((typ, bytes(data)))
+                await w.sock.send(msg, psock.RETRY_IDEMPOTENT)
             if gap == "turn1":
                 await asyncio.sleep(0)
             elif gap == "turn3":
@@ -87,6 +97,13 @@ def deliver(gen, stream, cuts, gap, debug=False, delays=None):
         await quiesce(loop)
         closed = (not c.open) or len(net.conns) != 1
         out = [describe(h, m) for _, h, m in w.msgs]
+        if send_in_gap:
+            by = S.frames_by_conn(gen, log).get(c.id)
+            got = [(i["frame"].typ, bytes(i["frame"].data)) for i in by["frames"]
+                   if i["frame"].crc_ok] if by else []
+            if got != sent or (by and (by["rest"] or by["err"])):
+                closed = True   # what was sent meanwhile did not arrive whole and in order
+                log.add("HARNESS.sent_frames_damaged", want=len(sent), got=len(got))
         await w.close()
         return out, closed
 
@@ -128,6 +145,13 @@ def cases(tier, seed):
                            [0.05] * 8):
                 yield {"k": "cuts", "gen": gen, "stream": sname, "gap": "same_turn",
                        "cuts": [[], [n // 2]], "delays": delays}
+            if full or tier == "thorough":
+                # the application keeps sending while the frames trickle in
+                ones_all = [[i] for i in range(1, n)]
+                for gap in ("same_turn", "turn1", "quiesce"):
+                    for ch in _chunks(ones_all, 100):
+                        yield {"k": "cuts", "gen": gen, "stream": sname, "gap": gap, "cuts": ch,
+                               "send_in_gap": True}
             if not full:
                 continue
             ones = [[i] for i in range(1, n)]
@@ -191,7 +215,10 @@ def run_case(case):
     decided = 0
     for cuts in case["cuts"]:
         out, closed, errs, status = deliver(gen, stream, cuts, case["gap"],
-                                            case.get("debug", False), case.get("delays"))
+                                            case.get("debug", False), case.get("delays"),
+                                            case.get("send_in_gap", False))
+        if case.get("send_in_gap"):
+            obs["sends_between_segments"] = obs.get("sends_between_segments", 0) + len(cuts)
         if case.get("delays"):
             obs["slow_subscriber_runs"] = obs.get("slow_subscriber_runs", 0) + 1
 
